@@ -25,6 +25,18 @@ def jobs(tier):
             for sc in hists:
                 out.append({"prop": PROP, "cfg": cfg, "order": order, "base": "B1", "scripts": A.stamp(sc),
                             "mode": {"k": None, "cap": 2000 if tier == "quick" else 6000, "depth": 60 if tier == "quick" else 120, "audit": 64 if tier == "quick" else 8}})
+    # both sides write identical bytes (the engine merges such conflicts silently), alone and combined with a rename/delete
+    same = [[[["write", "a", "SAME"]], [["write", "a", "SAME"]]],
+            [[["create", "c", "SAME"]], [["create", "c", "SAME"]]],
+            [[["write", "a", "SAME"], ["rename", "a", "c"]], [["write", "a", "SAME"]]],
+            [[["write", "a", "SAME"]], [["write", "a", "SAME"], ["rename", "a", "c"]]],
+            [[["write", "a", "SAME"], ["delete", "a"]], [["write", "a", "SAME"]]],
+            [[["create", "c", "SAME"], ["rename", "c", "d/c"]], [["create", "c", "SAME"]]],
+            [[["write", "a", "SAME"]], [["write", "a", "SAME"], ["write", "a", "R2"]]]]
+    for cfg in cfgs:
+        for sc in same:
+            out.append({"prop": PROP, "cfg": cfg, "order": "asc", "base": "B1", "scripts": sc,
+                        "mode": {"k": None, "cap": 2500, "depth": 60, "audit": 0}})
     # application resolver answering "merged data, keep both": the engine must still go quiet (fair schedule, k=0)
     for cfg in cfgs:
         for shape, path in (("create", "c"), ("write", "a")):
